@@ -43,6 +43,13 @@ func Queue(b ...byte) {
 	R.mu.Unlock()
 }
 
+// ClearQueue drops queued bytes that were not consumed.
+func ClearQueue() {
+	R.mu.Lock()
+	R.queue = nil
+	R.mu.Unlock()
+}
+
 // Reseed restarts the pseudo-random stream.
 func Reseed(s uint64) {
 	R.mu.Lock()
